@@ -6,16 +6,18 @@ McTable == ClassTable
 
 \* kept classes after which the exhaustive enumeration goes on (one per handler that changes node or peer state)
 McCarriers == {"HsGood", "Phs_Good", "FrHeartbeat", "GetStatus_Good", "Status_Higher", "Hash_Good", "Txs_Good", "GetBlocks_Good",
-               "Blocks_Good", "Confirm_Good", "GetConfirms_Good", "Confirms_Good", "DiscRes_Good"}
+               "Blocks_Good", "Confirm_Good", "GetConfirms_Good", "Confirms_Good", "DiscRes_Good",
+               "Blocks_ChildUnsigned", "Blocks_DeputyPlausible", "Confirm_Known"}
 \* the quick tier continues after fewer of them
-McCarriersQ == {"HsGood", "Phs_Good", "GetStatus_Good", "Txs_Good", "Blocks_Good", "Confirm_Good"}
+McCarriersQ == {"HsGood", "Phs_Good", "GetStatus_Good", "Txs_Good", "Blocks_Good", "Confirm_Good", "Blocks_DeputyPlausible"}
 \* in simulation every kept class carries on
-McAllKept == {t[1] : t \in {u \in McTable : u[3] \in {"keep", "adv"}}}
+McAllKept == {t[1] : t \in {u \in McTable : u[3] \in {"keep", "adv"}}} \cup {"Blocks_ChildUnsigned", "Blocks_DeputyPlausible", "Confirm_Known", "Blocks_OrphanMax", "Confirms_Unknown"}
 McHeavy == {"Confirm_Flood", "Blocks_Flood", "GetBlocks_Huge", "GetBlocksCL_Huge", "FrMaxLenGarbage", "FrMaxLenTrunc", "Confirms_HugePack",
             "DiscRes_Many", "Txs_Many", "HsHugeLenTrunc", "HsLen64MTrunc"}
-McProbe == {"HsGood", "Phs_Good", "GetStatus_Good"}
+McProbe == [p \in {"PreHs", "ProtoHs", "Est"} |-> IF p = "PreHs" THEN "HsGood" ELSE IF p = "ProtoHs" THEN "Phs_Good" ELSE "GetStatus_Good"]
 McMaxIn1 == [p \in {"PreHs", "ProtoHs", "Est"} |-> 1]
 McMaxIn2 == [p \in {"PreHs", "ProtoHs", "Est"} |-> IF p = "Est" THEN 2 ELSE 1]
+McMaxIn2p == [p \in {"PreHs", "ProtoHs", "Est"} |-> IF p = "PreHs" THEN 1 ELSE 2]
 McMaxIn3 == [p \in {"PreHs", "ProtoHs", "Est"} |-> IF p = "Est" THEN 3 ELSE IF p = "ProtoHs" THEN 2 ELSE 1]
 McMaxIn4 == [p \in {"PreHs", "ProtoHs", "Est"} |-> IF p = "Est" THEN 4 ELSE IF p = "ProtoHs" THEN 2 ELSE 1]
 NoDev == {}
